@@ -244,6 +244,32 @@ def is_exact(v):
     return True
 
 
+_OPAQUE_OPS = ("call", "index", "attr", "name", "global", "expr", "localdef", "slice", "item", "unpacked", "deep-call", "param",
+               "elem", "star", "modattr", "module", "comp", "dict", "set", "getattr", "new", "fstring")
+
+
+def has_opaque(v, allow=()):
+    """the value contains a term the interpreter could not evaluate (a call it did not follow, an unknown name ...);
+    `allow`: names of calls that are opaque on purpose"""
+    if isinstance(v, Sym):
+        if v.op in _OPAQUE_OPS:
+            if v.op == "call" and v.args and (v.args[0] in allow or (isinstance(v.args[0], Sym) and v.args[0].op == "attr" and v.args[0].args[-1] in allow)):
+                return any(has_opaque(a, allow) for a in v.args[1:])
+            return True
+        return any(has_opaque(a, allow) for a in v.args)
+    if isinstance(v, Bits):
+        return v.has_top()
+    if isinstance(v, Lin):
+        return any(has_opaque(a, allow) for a in v.terms)
+    if isinstance(v, (list, tuple)):
+        return any(has_opaque(x, allow) for x in v)
+    if isinstance(v, (CondV, Comp)):
+        return True
+    if isinstance(v, StrV):
+        return any(has_opaque(c, allow) for c in v.chars)
+    return False
+
+
 def as_bits(v):
     if isinstance(v, Bits):
         return v
@@ -404,7 +430,9 @@ class Interp:
                 if it.optional_vars is not None:
                     self.assign(it.optional_vars, v, env, func)
             self.exec_block(s.body, env, func)
-        elif isinstance(s, (ast.FunctionDef, ast.ClassDef)):
+        elif isinstance(s, ast.FunctionDef):
+            env[s.name] = LocalFuncV(s, env, func)
+        elif isinstance(s, ast.ClassDef):
             env[s.name] = Sym("localdef", s.name)
         elif isinstance(s, ast.Delete):
             return
@@ -1286,6 +1314,34 @@ class Interp:
                     r = h(self, target, args, kwargs, e, func)
                     if r is not NotImplemented:
                         return r
+        if isinstance(callee, LocalFuncV):
+            env2 = dict(callee.env)
+            a = callee.node.args
+            params = [x.arg for x in a.posonlyargs + a.args]
+            defaults = list(a.defaults)
+            for i, pname in enumerate(params):
+                if i < len(args):
+                    env2[pname] = args[i]
+                elif kwargs and pname in kwargs:
+                    env2[pname] = kwargs[pname]
+                else:
+                    di = i - (len(params) - len(defaults))
+                    env2[pname] = self.eval(defaults[di], callee.env, callee.func) if 0 <= di < len(defaults) else Sym("param", pname)
+            if self.depth >= MAX_DEPTH:
+                return Sym("deep-call", callee.node.name)
+            self.depth += 1
+            gen = _is_generator(callee.node)
+            if gen:
+                self._yields.append([])
+            try:
+                self.exec_block(callee.node.body, env2, callee.func)
+                return self._yields[-1] if gen else None
+            except _Return as r:
+                return self._yields[-1] if gen else r.value
+            finally:
+                if gen:
+                    self._yields.pop()
+                self.depth -= 1
         if isinstance(callee, LambdaV):
             env2 = dict(callee.env)
             a = callee.node.args
@@ -1316,6 +1372,10 @@ class Interp:
             if cls.is_subclass_of("Exception") or cls.name.endswith("Error") or cls.name.startswith("Invalid"):
                 return Sym("exc", cls.name)
             return Sym("new", cls.name, *args)
+        if name == "Struct" and func is not None and func.module.imports.get("Struct") == ("struct", "Struct") and len(args) == 1:
+            if isinstance(args[0], str):
+                return PackerV(args[0])
+            raise AnalysisError("%s: struct.Struct format %s is not a constant in the abstract domain" % (func.loc(e), show(args[0])[:80]))
         if name in ("pack", "unpack", "calcsize") and func is not None and func.module.imports.get(name) == ("struct", name) and args and isinstance(args[0], str):
             if name == "unpack" and len(args) == 2:
                 return self.struct_unpack(args[0], args[1], e, func)
@@ -1606,6 +1666,13 @@ class CondV:
 
     def __repr__(self):
         return "(%s %s %s)" % (show(self.a), self.op, show(self.b))
+
+
+class LocalFuncV:
+    """a function defined inside the analysed function (closure over the defining environment)"""
+
+    def __init__(self, node, env, func):
+        self.node, self.env, self.func = node, env, func
 
 
 class LambdaV:
